@@ -71,3 +71,9 @@ impl Value {
     #[verifier::external_body] pub fn is_number(&self) -> (r: bool) ensures r == kind_number(*self) { unimplemented!() }
     #[verifier::external_body] pub fn is_f64(&self) -> (r: bool) ensures r == kind_f64(*self) { unimplemented!() }
 }
+/// `str::len`: the byte length
+#[verifier::external_body]
+pub fn vx_blen(s: &str) -> (r: usize) ensures r == blen(s@) { unimplemented!() }
+/// every character takes at least one byte
+#[verifier::external_body]
+pub proof fn axiom_blen_ge_len(s: Seq<char>) ensures blen(s) >= s.len() {}
